@@ -149,10 +149,25 @@ def _verdict(prog):
             if r[0] != "value" or not _same(G, r[1]):
                 return False, "%s gives the text %r, which is read back as %s" % (what, text, r[1] if r[0] != "value" else _show(r[1]))
             cnt += 1
-            for bad, equal in damaged(text):
+            extra = []
+            if fmt == "kthlist":
+                # vertex lines must come in strictly increasing order: a repeated or out-of-order vertex line is refused (it would replace
+                # or reorder an adjacency list that the text states once)
+                ls = text.splitlines(True)
+                vl = [i for i, l in enumerate(ls) if ":" in l]
+                for a_, b_ in zip(vl, vl[1:]):
+                    sw = list(ls)
+                    sw[a_], sw[b_] = sw[b_], sw[a_]
+                    extra.append(("".join(sw), "refused"))
+                for a_ in vl:
+                    extra.append(("".join(ls[:a_ + 1] + [ls[a_]] + ls[a_ + 1:]), "refused"))
+            for bad, equal in damaged(text) + extra:
                 r2 = _fold(prog, rname, [TextIn(bad)] + ([gclass] if gclass else []))
                 if r2[0] == "raises" and r2[1] != "ValueError":
                     return False, "the %s reader of %s graphs ends in %s on the text %r; a damaged file must be refused with ValueError" % (fmt, kind, r2[1], bad)
+                if equal == "refused" and r2 != ("raises", "ValueError"):
+                    return False, "the %s reader of %s graphs accepts the text %r although a vertex line is repeated or out of order (read as %s)" % (
+                        fmt, kind, bad, _show(r2[1]) if r2[0] == "value" else r2[1])
                 if equal is True and (r2[0] != "value" or not _same(G, r2[1])):
                     return False, "the %s reader of %s graphs reads %r (blank lines added) as %s instead of %s" % (
                         fmt, kind, bad, r2[1] if r2[0] != "value" else _show(r2[1]), _show(G))
